@@ -83,7 +83,34 @@ foreign!(ForeignLocalProd, ProdIter<'static, LocalHeapRB<Rc<u8>>>, ConcurrentHea
 foreign!(ForeignLocalWork, WorkIter<'static, LocalHeapRB<usize>>, ConcurrentHeapRB<usize>);
 foreign!(ForeignRcCons, ConsIter<'static, ConcurrentHeapRB<Rc<u8>>, false>, ConcurrentHeapRB<u8>);
 
+/// a user-side async iterator whose wrapped sync iterator IS sendable (concurrent buffer, sendable items) but which carries something that
+/// is not (an `Rc`, an iterator of a local buffer): a wrapper's `Send` must rest on the whole `I`, not on `I::I`
+#[allow(dead_code)]
+struct ForeignCarriesRc { inner: ProdIter<'static, ConcurrentHeapRB<usize>>, extra: Rc<u8> }
+#[allow(dead_code)]
+struct ForeignCarriesLocal { inner: WorkIter<'static, ConcurrentHeapRB<usize>>, extra: Option<ProdIter<'static, LocalHeapRB<usize>>> }
+impl mutringbuf::iterators::async_iterators::AsyncIterator for ForeignCarriesRc {
+    type I = ProdIter<'static, ConcurrentHeapRB<usize>>;
+    type B = ConcurrentHeapRB<usize>;
+    fn register_waker(&mut self, _w: &std::task::Waker) {}
+    fn inner(&self) -> &Self::I { &self.inner }
+    fn inner_mut(&mut self) -> &mut Self::I { &mut self.inner }
+    fn into_sync(self) -> Self::I { self.inner }
+    fn from_sync(iter: Self::I) -> Self { Self { inner: iter, extra: Rc::new(0) } }
+}
+impl mutringbuf::iterators::async_iterators::AsyncIterator for ForeignCarriesLocal {
+    type I = WorkIter<'static, ConcurrentHeapRB<usize>>;
+    type B = ConcurrentHeapRB<usize>;
+    fn register_waker(&mut self, _w: &std::task::Waker) {}
+    fn inner(&self) -> &Self::I { &self.inner }
+    fn inner_mut(&mut self) -> &mut Self::I { &mut self.inner }
+    fn into_sync(self) -> Self::I { self.inner }
+    fn from_sync(iter: Self::I) -> Self { Self { inner: iter, extra: None } }
+}
+
 fn main() {
+    row!("Foreign", "Prod", 1, 0, 0, AsyncDetached<ForeignCarriesRc, ConcurrentHeapRB<usize>>);
+    row!("Foreign", "Work", 0, 1, 1, AsyncDetached<ForeignCarriesLocal, ConcurrentHeapRB<usize>>);
     row!("Foreign", "Prod", 0, 0, 0, AsyncDetached<ForeignLocalProd, ConcurrentHeapRB<u8>>);
     row!("Foreign", "Work", 0, 1, 1, AsyncDetached<ForeignLocalWork, ConcurrentHeapRB<usize>>);
     row!("Foreign", "Cons", 1, 0, 0, AsyncDetached<ForeignRcCons, ConcurrentHeapRB<u8>>);
